@@ -339,6 +339,9 @@ package s3mem
 //@                             ret0.Hash == dyn(sl_val(objAt(B, objectName).versions)[vkey(versionID)], *bucketData).hash && ret0.VersionID == versionID)
 //@ ensures [C05]     noversion: imp(hasBucket(db, bucketName) && versionID != "" && hasObj(B, objectName) && objAt(B, objectName).data.versionID != versionID &&
 //@                             (objAt(B, objectName).versions == nil || !sl_has(objAt(B, objectName).versions)[vkey(versionID)]), errcode(ret1) == gofakes3.ErrNoSuchVersion)
+//@ ensures [C05]     curok:  imp(hasBucket(db, bucketName) && versionID != "" && hasObj(B, objectName) && objAt(B, objectName).data.versionID == versionID && rangeRequest == nil, ret1 == nil)
+//@ ensures [C05]     oldok:  imp(hasBucket(db, bucketName) && versionID != "" && hasObj(B, objectName) && objAt(B, objectName).data.versionID != versionID &&
+//@                             objAt(B, objectName).versions != nil && sl_has(objAt(B, objectName).versions)[vkey(versionID)] && rangeRequest == nil, ret1 == nil)
 //@ ensures           lock:   db.lock == 0
 //@ modifies db.lock
 
